@@ -319,18 +319,24 @@ class Topology(ABC):
         :param kwargs: pass additional parameters to add node (e.g. model)
         """
         switch = self.add_node(name=name, node_id=node_id, site=site, ntype=NodeType.Switch)
-        switch_ns = switch.add_network_service(name=name + '-ns',
-                                               node_id=node_id + '-ns' if node_id else None,
-                                               nstype=nstype, labels=nslabels)
-        # name them 'p1'-'p8'
-        for i in range(1, nports + 1):
-            labels = Labels(local_name=f'p{i}')
-            # 100G port
-            capacities = Capacities(bw=100)
-            switch_i = switch_ns.add_interface(name=f'p{i}', node_id=node_id + f'-int{i}' if node_id else None,
-                                               itype=InterfaceType.DedicatedPort,
-                                               labels=portlabels if portlabels else labels,
-                                               capacities=portcapacities if portcapacities else capacities)
+        try:
+            switch_ns = switch.add_network_service(name=name + '-ns',
+                                                   node_id=node_id + '-ns' if node_id else None,
+                                                   nstype=nstype, labels=nslabels)
+            # name them 'p1'-'p8'
+            for i in range(1, nports + 1):
+                labels = Labels(local_name=f'p{i}')
+                # 100G port
+                capacities = Capacities(bw=100)
+                switch_i = switch_ns.add_interface(name=f'p{i}', node_id=node_id + f'-int{i}' if node_id else None,
+                                                   itype=InterfaceType.DedicatedPort,
+                                                   labels=portlabels if portlabels else labels,
+                                                   capacities=portcapacities if portcapacities else capacities)
+        except Exception:
+            # the switch is a single construct: do not leave the node (and the service and ports
+            # added so far) behind when a later step is rejected
+            self.graph_model.remove_network_node_with_components_nss_cps_and_links(node_id=switch.node_id)
+            raise
         return switch
 
     def remove_switch(self, *, name: str):
